@@ -223,6 +223,165 @@ def do_deser(eolib, cls, data, chunked, fail_at=None):
             'heavy': bool(dt > 0.004 and res[:2] != ['err', 'EFuel'])}
 
 
+def public_props(o):
+    return [k for k, p in vars(type(o)).items() if isinstance(p, property)]
+
+
+def is_generated(o):
+    return hasattr(type(o), 'serialize') and hasattr(type(o), 'deserialize') and hasattr(o, 'byte_size')
+
+
+def walk_objects(o, seen=None):
+    """o and every generated object reachable through public properties"""
+    out = [o]
+    for k in public_props(o):
+        v = getattr(o, k)
+        for x in (v if isinstance(v, (tuple, list)) else [v]):
+            if is_generated(x):
+                out += walk_objects(x)
+    return out
+
+
+def ser_bytes(cls, obj):
+    from eolib.data.eo_writer import EoWriter
+    w = EoWriter()
+    try:
+        cls.serialize(w, obj)
+        return ['ok', list(w.to_bytearray())]
+    except BaseException as e:
+        return ['err', exc_class(e), list(w.to_bytearray())]
+
+
+def poke(o, problems, where):
+    """every attempted public mutation: assignment / deletion of each property; in-place mutation of every returned value"""
+    for sub in walk_objects(o):
+        for k in public_props(sub):
+            for what, f in (('assign', lambda: setattr(sub, k, 7)), ('delete', lambda: delattr(sub, k))):
+                try:
+                    f()
+                    problems.append(f"{where}: {what} of {type(sub).__qualname__}.{k} did not raise")
+                except AttributeError:
+                    pass
+                except BaseException as e:
+                    problems.append(f"{where}: {what} of {type(sub).__qualname__}.{k} raised {type(e).__name__}, not AttributeError")
+            v = getattr(sub, k)
+            try:
+                if isinstance(v, bytearray):
+                    v.append(7)
+                    v[:1] = b'\x09'
+                elif isinstance(v, list):
+                    v.append(v[0] if v else 7)
+                    v.reverse()
+                elif isinstance(v, (dict, set)):
+                    v.clear()
+            except BaseException:
+                pass
+            if isinstance(v, (bytearray, list, dict, set)):
+                problems.append(f"{where}: {type(sub).__qualname__}.{k} returns a mutable {type(v).__name__}")
+
+
+def do_immut(eolib, job):
+    import inspect
+    cls = find_class(eolib, job['cls'])
+    problems = []
+    # constructor arguments: arrays passed as lists the caller keeps and mutates afterwards
+    lists = []
+
+    def b(v):
+        if v is not None and 'l' in v:
+            l = [b(x) for x in v['l']]
+            lists.append(l)
+            return l
+        if v is not None and 'o' in v:
+            c = find_class(eolib, v['o'])
+            return c(**{k: b(x) for k, x in v['f'] if k != 'byte_size'})
+        return build(eolib, v)
+    try:
+        obj = limited(3, b, job['value'])
+    except BaseException as e:
+        return {'construct_error': exc_class(e)}
+    s1 = ser_bytes(cls, obj)
+    for sub in walk_objects(obj):
+        for k in public_props(sub):
+            v = getattr(sub, k)
+            if isinstance(v, list):
+                problems.append(f"array field {type(sub).__qualname__}.{k} is a list, not a tuple")
+    for l in lists:
+        l.append(l[0] if l else 1)
+        l.reverse()
+        del l[:1]
+    s2 = ser_bytes(cls, obj)
+    if s2 != s1:
+        problems.append(f"serialization changed after the caller mutated the lists the object was built from: {s1} -> {s2}")
+    poke(obj, problems, 'constructed')
+    s3 = ser_bytes(cls, obj)
+    if s3 != s1:
+        problems.append(f"serialization changed after attempted public mutations: {s1} -> {s3}")
+    out = {'ser': s1, 'problems': problems}
+    if s1[0] == 'ok':
+        from eolib.data.eo_reader import EoReader
+        try:
+            o2 = limited(3, cls.deserialize, EoReader(bytes(s1[1])))
+        except BaseException as e:
+            out['deser_error'] = exc_class(e)
+            return out
+        d1 = ser_bytes(cls, o2)
+        poke(o2, problems, 'deserialized')
+        d2 = ser_bytes(cls, o2)
+        if d2 != d1:
+            problems.append(f"deserialized instance: serialization changed after attempted public mutations: {d1} -> {d2}")
+        out['reser'] = d1
+    # the constructor copies every array parameter
+    try:
+        src = inspect.getsource(cls.__init__)
+        for name in job.get('arrays', []):
+            if f"self._{name} = tuple({name})" not in src:
+                problems.append(f"constructor of {job['cls']} does not copy array parameter {name} with tuple()")
+    except BaseException:
+        pass
+    return out
+
+
+def do_enum(eolib, job):
+    """construct protocol enums from integers; observe identity, name, value, equality, hash, membership, class members"""
+    if 'cls' in job:
+        E = find_class(eolib, job['cls'])
+    elif 'src' in job:
+        ns = {}
+        exec(job['src'], ns)
+        E = ns['E']
+    else:
+        from enum import IntEnum
+        from eolib.protocol.protocol_enum_meta import ProtocolEnumMeta
+
+        class Base(IntEnum, metaclass=ProtocolEnumMeta):
+            pass
+        E = Base('E', job['functional'])
+    before = [[m.name, int(m)] for m in E]
+    mm_before = sorted(E.__members__)
+    obs = []
+    problems = []
+    for n in job['calls']:
+        v = E(n)
+        v2 = E(n)
+        ms = list(E)
+        idx = next((i for i, m in enumerate(ms) if m is v), -1)
+        obs.append([idx >= 0, idx, v.name, int(v)])
+        if idx >= 0 and v is not v2:
+            problems.append(f"E({n}) is not the same object every time")
+        if not isinstance(v, E) or not isinstance(v, int):
+            problems.append(f"E({n}) is not an instance of the enum / of int")
+        if not (v == n and n == v and hash(v) == hash(n)):
+            problems.append(f"E({n}) does not compare/hash equal to {n}")
+        if v.value != n:
+            problems.append(f"E({n}).value is {v.value!r}")
+        if [[m.name, int(m)] for m in E] != before or sorted(E.__members__) != mm_before:
+            problems.append(f"constructing E({n}) changed the declared members")
+        if idx < 0 and (type(v) is not E or v.name != f"Unrecognized({n})"):
+            problems.append(f"E({n}) is named {v.name!r} / typed {type(v).__name__}")
+    return {'obs': obs, 'members': [[m.name, int(m)] for m in E], 'problems': problems}
+
+
 def mutate(rng, data, n):
     out = []
     L = len(data)
@@ -276,6 +435,10 @@ def run_tree(root, t):
                         for d in mutate(rng, data, job['mutants']):
                             ds.append(do_deser(eolib, cls, d, rng.random() < 0.25))
                     out['deser'] = ds
+            elif op == 'immut':
+                out = do_immut(eolib, job)
+            elif op == 'enum':
+                out = do_enum(eolib, job)
             elif op == 'packet':
                 cls = find_class(eolib, job['cls'])
                 out = {'family': int(cls.family()), 'action': int(cls.action()),
